@@ -86,32 +86,51 @@ func TestTrace(t *testing.T) {
 		emitUUID(string(bs))
 	}
 
-	// concurrent calls: the offline UUID of a name must not depend on what other goroutines ask for
+	// concurrent calls: the offline UUID of a name must not depend on what other goroutines ask
+	// for.  Millions of calls in tight loops over a fixed set of names per goroutine; identical
+	// observations (same name, same result) are grouped with a repeat count, every DISTINCT
+	// observation becomes a trace line that TLC judges.
 	{
+		type obs struct {
+			name string
+			u    uuid.UUID
+		}
 		var wg sync.WaitGroup
-		var cmu sync.Mutex
-		for wkr := 0; wkr < 8; wkr++ {
-			seed := rng.Int63()
+		workers, names, rounds := 32, 40, tracefmt.EnvInt("VERIF_CONC", 800)
+		results := make([]map[obs]int, workers)
+		start := make(chan struct{})
+		for wkr := 0; wkr < workers; wkr++ {
+			wkr := wkr
+			lr := rand.New(rand.NewSource(rng.Int63()))
+			mine := make([]string, names)
+			for i := range mine {
+				bs := make([]byte, 2+(wkr+i)%18)
+				for j := range bs {
+					bs[j] = byte('a' + lr.Intn(26))
+				}
+				mine[i] = string(bs)
+			}
 			wg.Add(1)
 			go func() {
 				defer wg.Done()
-				lr := rand.New(rand.NewSource(seed))
-				for i := 0; i < tracefmt.EnvInt("VERIF_CONC", 500); i++ {
-					ln := 1 + lr.Intn(20)
-					bs := make([]byte, ln)
-					for j := range bs {
-						bs[j] = byte('a' + lr.Intn(26))
+				seen := map[obs]int{}
+				<-start
+				for r := 0; r < rounds; r++ {
+					for _, n := range mine {
+						seen[obs{n, uuid.OfflinePlayerUUID(n)}]++
 					}
-					name := string(bs)
-					u := uuid.OfflinePlayerUUID(name)
-					cmu.Lock()
-					tw.Emit(tracefmt.Rec{"ev": "uuid", "md5": tracefmt.Bytes(md5of(name)), "uuid": tracefmt.Bytes(u[:]), "concurrent": true})
-					nuuid++
-					cmu.Unlock()
 				}
+				results[wkr] = seen
 			}()
 		}
+		close(start)
 		wg.Wait()
+		for _, seen := range results {
+			for o, rep := range seen {
+				tw.Emit(tracefmt.Rec{"ev": "uuid", "md5": tracefmt.Bytes(md5of(o.name)), "uuid": tracefmt.Bytes(o.u[:]), "concurrent": true, "rep": rep})
+				nuuid += rep
+			}
+		}
 	}
 
 	// (b) live logins that end up in offline mode: an offline-mode proxy, and an online-mode
